@@ -145,8 +145,17 @@ def pruneOnLookup (st : State) (q : Name) (t : Nat) : State :=
       else go (zones.filter fun x => x.zone != z.zone) rest
   { st with zones := go st.zones cand }
 
-/-- `nxDomainCutCache.lookup`: the name or an ancestor is an unexpired denied name. -/
-def lookupCut (st : State) (q : Name) : Bool :=
-  st.cuts.any fun c => nameInZone q c.denied && st.now < c.expires
+/-- `nxDomainCutCache.lookup`: walk the question name's suffixes label by label
+(`dnsname.Suffixes`: the name itself, then each ancestor with at least one
+label; the root is never a candidate), look each candidate up by exact
+denied name, skip an expired entry.  `k` = number of labels of the candidate. -/
+def cutWalk (st : State) (q : Name) : Nat → Option CutEntry
+  | 0 => none
+  | k + 1 =>
+    match st.cuts.find? fun c => c.denied == q.take (k + 1) with
+    | some c => if st.now < c.expires then some c else cutWalk st q k
+    | none => cutWalk st q k
+
+def lookupCut (st : State) (q : Name) : Bool := (cutWalk st q q.length).isSome
 
 end SdnsVerif.Model.ProofExpiry
